@@ -31,7 +31,8 @@ RULE = ("worlds = seeded random file histories v0..vn (n<=6, <=12 lines each) pu
         "foreign; per world: the fault-free execution, then every applicable single fault "
         "(transport, payload, index, filesystem) and sampled fault pairs; an evaluation is one "
         "update_file execution; distinct = distinct (world-shape, fault-sequence, outcome) "
-        "hash; non-trivial = the execution fetched at least the index or performed a write")
+        "hash; non-trivial = the execution fetched at least the index or performed a write"
+        '; later additions: stale local.new, index columns separated by tabs / several blanks, a second epoch (one more version published, second update), recovery update after every raised fault, persistent disk-full, payloads over 8 KiB and over 128 KiB of multi-byte text, chains of 12 patches, patch names that are not in lexicographic order (for the two costly kinds of world the single faults are an even spread of 40 resp. 12)')
 REAL = ["debian.debian_support.update_file / download_file / download_gunzip_lines / "
         "replace_file / PackageFile / patches_from_ed_script / patch_lines / read_lines_sha*",
         "urllib.request (urlopen, urlretrieve, OpenerDirector)", "gzip", "tempfile.mkstemp",
